@@ -5,6 +5,7 @@ import (
 	"encoding/binary"
 	"encoding/hex"
 	"fmt"
+	"io"
 )
 
 type Reader struct {
@@ -78,6 +79,23 @@ func (p *Reader) Bytes() []byte {
 	return p.buffer.Bytes()
 }
 
+// readExactly returns the next n (> 0) octets. The request is checked against what is buffered before
+// anything is allocated, so a length field taken from untrusted input cannot force a large allocation.
+func (p *Reader) readExactly(n int) ([]byte, bool) {
+	if p.buffer.Len() == 0 {
+		p.opError = newPacketError(io.EOF, "ReadCStringN read")
+		return nil, false
+	}
+	if n > p.buffer.Len() {
+		p.buffer.Reset() // a short read consumes what is left, as before
+		p.opError = newPacketError(fmt.Errorf("read unexpected length"), "ReadBytes")
+		return nil, false
+	}
+	temp := make([]byte, n)
+	_, _ = p.buffer.Read(temp)
+	return temp, true
+}
+
 func (p *Reader) ReadCStringN(n int) string {
 	if p.opError != nil {
 		return ""
@@ -87,16 +105,8 @@ func (p *Reader) ReadCStringN(n int) string {
 		return ""
 	}
 
-	temp := make([]byte, n)
-
-	r, err := p.buffer.Read(temp)
-	if err != nil {
-		p.opError = newPacketError(err, "ReadCStringN read")
-		return ""
-	}
-
-	if r != n {
-		p.opError = newPacketError(fmt.Errorf("read unexpected length"), "ReadBytes")
+	temp, ok := p.readExactly(n)
+	if !ok {
 		return ""
 	}
 
@@ -116,16 +126,8 @@ func (p *Reader) ReadCStringNWithoutTrim(n int) string {
 		return ""
 	}
 
-	temp := make([]byte, n)
-
-	r, err := p.buffer.Read(temp)
-	if err != nil {
-		p.opError = newPacketError(err, "ReadCStringN read")
-		return ""
-	}
-
-	if r != n {
-		p.opError = newPacketError(fmt.Errorf("read unexpected length"), "ReadBytes")
+	temp, ok := p.readExactly(n)
+	if !ok {
 		return ""
 	}
 
@@ -158,16 +160,8 @@ func (p *Reader) ReadNBytes(n int) []byte {
 		return nil
 	}
 
-	temp := make([]byte, n)
-
-	r, err := p.buffer.Read(temp)
-	if err != nil {
-		p.opError = newPacketError(err, "ReadCStringN read")
-		return nil
-	}
-
-	if r != n {
-		p.opError = newPacketError(fmt.Errorf("read unexpected length"), "ReadBytes")
+	temp, ok := p.readExactly(n)
+	if !ok {
 		return nil
 	}
 
